@@ -237,7 +237,7 @@ class PathProv:
             if c and c.endswith("try_clone_to_owned"):
                 sub = self.classify_fd_origins(self.tracer.origins_of_arg(o.term, 0), depth + 1)
                 return {("dup:" + k, p) for (k, p) in sub}
-            if c == "std::rc::Rc::<T>::try_unwrap":
+            if c and c.endswith("::try_unwrap") and "Rc::" in c:
                 return self.classify_fd_origins(self.tracer.origins_of_arg(o.term, 0), depth + 1)
             if c == "capi::utils::CBorrowedFd::<'fd>::try_as_borrowed_fd":
                 return {("api-fd", "C caller")}
